@@ -57,6 +57,8 @@ LIMIT_S = 3.0
 def guarded(sub, model, hist, op, fn):
     '''Run fn() under the per-execution time limit; a hang is a violation.'''
     limit = getattr(model, 'limit_s', LIMIT_S)
+    if sub.n('hangs') >= 3:
+        return False, None          # enough confirmed hangs in this worker: do not spend the budget on more
     try:
         try:
             with core.time_limit(limit):
@@ -64,12 +66,13 @@ def guarded(sub, model, hist, op, fn):
         except core.Timeout:
             # a loaded machine can exceed the first limit; only a repeated timeout with a 10x limit counts
             sub.count('timeouts_first')
-            with core.time_limit(limit * 10):
+            with core.time_limit(max(limit * 3, 10.0)):
                 return True, fn()
     except core.Timeout:
+        sub.count('hangs')
         sub.violation('%s:hang' % sub.prop.lower(), model.case(hist, op),
                       'execution did not finish within %.0f s: history %r, operation %r' %
-                      (limit * 10, hist, op))
+                      (max(limit * 3, 10.0), hist, op))
         return False, None
     except MemoryError:
         sub.violation('%s:memory' % sub.prop.lower(), model.case(hist, op),
